@@ -236,6 +236,95 @@ func runCross(c *engine.Ctx, getPKI func(t *engine.T) map[string]*family) {
 				t.Eval(2)
 			}
 		}
+		// ---- several signers of which exactly one is not anchored in the trust store, in every position of the SET OF
+		// SignerInfo, with end-entity certificates that carry no subjectKeyIdentifier (nothing but the certificate itself
+		// tells two such signers apart)
+		for _, fam := range []string{"sm2", "rsa"} {
+			other := "rsa"
+			if fam == "rsa" {
+				other = "sm2"
+			}
+			// every signer holds a key of type fam; the foreign one is certified by the root of the other family
+			mk := func(f string, idx int, cn string, serial int64) *ident {
+				k, err := newKey(fam, idx)
+				if err != nil {
+					t.Fail("cross/setup", "%v", err)
+					return nil
+				}
+				c, err := mkCertOptSKI(f, cn, big.NewInt(serial), false, k, fms[f].root, byte(0xe0+idx), false)
+				if err != nil {
+					t.Fail("cross/setup", "%v", err)
+					return nil
+				}
+				return &ident{name: f + "/" + cn, cert: c, key: k}
+			}
+			// serial numbers and names chosen so that the foreign signer sorts first, in the middle and last
+			good1, good2 := mk(fam, 0, "noski-b", 8102), mk(fam, 1, "noski-d", 8104)
+			for fi, foreignCN := range []string{"noski-a", "noski-c", "noski-e"} {
+				foreign := mk(other, 2, foreignCN, int64(8101+2*fi))
+				if good1 == nil || good2 == nil || foreign == nil {
+					return
+				}
+				for _, set := range [][]*ident{{good1, good2}, {good1, foreign}, {foreign, good1}, {good1, good2, foreign}, {good1, foreign, good2}, {foreign, good1, good2}} {
+					hasForeign := false
+					for _, id := range set {
+						hasForeign = hasForeign || id == foreign
+					}
+					content := engine.Pattern(3, 30)
+					key := "cross/multi-signer-trust/" + fam
+					var art []byte
+					var err error
+					t.Eval(1)
+					if t.Guard(key, func() {
+						var sd *pkcs7.SignedData
+						if fam == "sm2" {
+							sd, err = pkcs7.NewSMSignedData(content)
+						} else {
+							sd, err = pkcs7.NewSignedData(content)
+							if err == nil {
+								sd.SetDigestAlgorithm(pkcs7.OIDDigestAlgorithmSHA256)
+							}
+						}
+						if err != nil {
+							return
+						}
+						for _, id := range set {
+							if err = sd.AddSigner(id.cert, id.key, pkcs7.SignerInfoConfig{}); err != nil {
+								return
+							}
+						}
+						art, err = sd.Finish()
+					}) {
+						continue
+					}
+					if err != nil {
+						t.Fail(key+"/produce-error", "%v", err)
+						continue
+					}
+					p7, err := pkcs7.Parse(art)
+					if err != nil {
+						t.Fail(key+"/own-output-does-not-parse", "%v", err)
+						continue
+					}
+					mid := midTime
+					verr := p7.VerifyWithChainAtTime(fms[fam].pool, &mid)
+					var names []string
+					for _, id := range set {
+						names = append(names, id.name)
+					}
+					switch {
+					case hasForeign && verr == nil:
+						t.Fail(key+"/untrusted-signer-accepted", "signers %v (foreign signer variant %d): VerifyWithChainAtTime under the root of %s returned nil although %s is issued by another root", names, fi, fam, foreign.name)
+					case !hasForeign && verr != nil:
+						t.Fail(key+"/trusted-signers-rejected", "signers %v: %v", names, verr)
+					}
+					if err := p7.Verify(); err != nil {
+						t.Fail(key+"/own-output-does-not-verify", "signers %v: Verify without trust store: %v", names, err)
+					}
+					t.Nontrivial(fmt.Sprintf("%s/%d/%v", key, fi, names))
+				}
+			}
+		}
 		var _ = []crypto.PrivateKey{(*rsa.PrivateKey)(nil), (*ecdsa.PrivateKey)(nil)}
 		var _ *smx509.Certificate
 	})
